@@ -60,7 +60,7 @@ void explore13(Options const& o, std::vector<Shim*> const& shims, std::vector<Sh
   bool th = o.tier == "thorough";
   C13 c(rec);
   std::vector<i64> S, Sneg;
-  for( i64 x : (th ? S_set(10,8) : S_set(8,8)) ) { if( x >= 0 && x < LIM47 ) S.push_back(x); if( x < 0 ) Sneg.push_back(x); }
+  for( i64 x : merge_sets(th ? S_set(10,8) : S_set(8,8), S2_set(th ? 3 : 2)) ) { if( x >= 0 && x < LIM47 ) S.push_back(x); if( x < 0 ) Sneg.push_back(x); }
   for( i64 d = 1; d <= (1 << 16); ++d ) Sneg.push_back(-d);
   std::sort(Sneg.begin(), Sneg.end()); Sneg.erase(std::unique(Sneg.begin(), Sneg.end()), Sneg.end());
   i64 dense_big = th ? (1ll << 33) : (1ll << 26), dense_small = th ? (1ll << 28) : (1ll << 22);
